@@ -72,10 +72,16 @@ var failName = []string{"gen", "mid", "leaf"}
 // and differ only near their end (record names must stay distinct however they are shortened)
 var deepDir = "deep/" + strings.Repeat("p", 185)
 
+// noDeep leaves the two deep sources out (the scheduler pass of C18 explores interleavings, and
+// two more source targets multiply them without adding anything to the protocol).
+var noDeep bool
+
 func (v Vars) render() map[string]string {
 	f := map[string]string{}
-	f[deepDir+"/x/config.h"] = "cx\n"
-	f[deepDir+"/y/config.h"] = "cy\n"
+	if !noDeep {
+		f[deepDir+"/x/config.h"] = "cx\n"
+		f[deepDir+"/y/config.h"] = "cy\n"
+	}
 	f["dawn.toml"] = "name = \"p\"\n"
 	f["src/a.txt"] = fmt.Sprintf("a%d\n", v.A)
 	f["pkg/b.txt"] = fmt.Sprintf("b%d\n", v.B)
@@ -175,7 +181,11 @@ def _top(t):
 	if v.AlwaysGen {
 		alw = ", always=True"
 	}
-	f["BUILD.dawn"] = strings.ReplaceAll(strings.ReplaceAll(b.String(), "__ALWAYS__", alw), "__DEEP__", deepDir)
+	build := strings.ReplaceAll(b.String(), "__ALWAYS__", alw)
+	if noDeep {
+		build = strings.ReplaceAll(build, ", \"__DEEP__/x/config.h\", \"__DEEP__/y/config.h\"", "")
+	}
+	f["BUILD.dawn"] = strings.ReplaceAll(build, "__DEEP__", deepDir)
 
 	var p strings.Builder
 	if v.C3 {
